@@ -875,6 +875,20 @@ def install(E):
         return It('list', extra=([(some, payload(E, o, 1, 0, None, mem))], 0))
     reg(r'^<(?:std::option::)?Option<.*> as IntoIterator>::into_iter$', h_option_into_iter)
 
+    def h_option_iter(E, m, func, argv, guard, mem, dty, caller):
+        """Option::<T>::iter(&self): at most one item, a reference into the option's own storage"""
+        r = argv[0]
+        if not isinstance(r, Ref):
+            return NotImplemented
+        o = deref(E, r, mem, guard)
+        if not isinstance(o, En):
+            return NotImplemented
+        some = simp(is_some(o))
+        if some is False:
+            return It('list', extra=([], 0))
+        return It('list', extra=([(some, Ref(r.cell, r.path + (('v', 'Some'), ('f', 0, '?'))))], 0))
+    reg(r'^(?:std::option::|core::option::)?Option::<.*>::iter$', h_option_iter)
+
     def h_collect_vec(E, m, func, argv, guard, mem, dty, caller):
         """Iterator::collect::<Vec<T>>: the items with their presence conditions (not a prefix sequence in general)"""
         it = argv[0]
